@@ -223,9 +223,10 @@ Qed.
 Section SpRuns.
 Variable hp : bool -> list N -> option spec_host.
 Variable input : list N.
+Variable base : option spec_url.          (* not consulted by the states of this section *)
 
-Notation RunsN := (Runs hp input None).
-Notation stepN := (step hp input None None).
+Notation RunsN := (Runs hp input base).
+Notation stepN := (step hp input base None).
 Notation LEN := (Z.of_nat (length input)).
 
 (* the loop started on m ends with BDone su (o = Some su) or with a failure (o = None) *)
@@ -294,7 +295,7 @@ Proof.
         -- rewrite (step_unfold _ _ _ _ _ _ _ _ _ _ _ Hin). cbn zeta. cbn [hd_error]. unfold st_path.
            cbn [is_eof orb cis andb m_url m_buf at_pos has_ov opt_is_some negb]. rewrite Hsp. cbn [andb]. fold (is_sl c).
            rewrite Esl, E63. cbn [andb orb]. rewrite (path_seg_update u P B false HP Hf). reflexivity.
-        -- exact (runs_query hp input None r (pre ++ [c]) [] a b pw (set_query (set_path u (SPList (fin P B false))) (Some [])) []
+        -- exact (runs_query hp input base r (pre ++ [c]) [] a b pw (set_query (set_path u (SPList (fin P B false))) (Some [])) []
                    (snoc_split _ _ _ _ Hin) eq_refl).
       * destruct (c =? 35) eqn:E35.
         -- cbn [orb fst snd tail_url]. rewrite E63.
@@ -303,7 +304,7 @@ Proof.
            ++ rewrite (step_unfold _ _ _ _ _ _ _ _ _ _ _ Hin). cbn zeta. cbn [hd_error]. unfold st_path.
               cbn [is_eof orb cis andb m_url m_buf at_pos has_ov opt_is_some negb]. rewrite Hsp. cbn [andb]. fold (is_sl c).
               rewrite Esl, E63, E35. cbn [andb orb]. rewrite (path_seg_update u P B false HP Hf). reflexivity.
-           ++ exact (runs_fragment hp input None r (pre ++ [c]) [] a b pw (set_fragment (set_path u (SPList (fin P B false))) (Some [])) []
+           ++ exact (runs_fragment hp input base r (pre ++ [c]) [] a b pw (set_fragment (set_path u (SPList (fin P B false))) (Some [])) []
                       (snoc_split _ _ _ _ Hin) eq_refl).
         -- cbn [orb].
            eapply runs_step_next with (st' := StPath) (buf' := B ++ utf8_percent_encode_cp in_path_set c) (u' := u);
@@ -656,20 +657,22 @@ Proof.
     + apply (runs_ignore_slashes (take_sl R) pre (drop_sl R) a b pw u res Hin2 (take_sl_all R) (drop_sl_head R) HR).
 Qed.
 
-(* the run at the ':' for a special non-file scheme, no base: special authority slashes state *)
+(* the run at the ':' for a special non-file scheme, no base or a base with another scheme: special
+   authority slashes state *)
 Theorem runs_scheme_colon_special pre sch rest res :
   input = pre ++ 58 :: rest -> is_special_scheme sch = true -> list_eqb sch str_file = false ->
+  match base with Some b => list_eqb (su_scheme b) sch | None => false end = false ->
   RunsN (at_pos StSpecialAuthoritySlashes (pre ++ [58]) [] false false false (set_scheme empty_url sch)) res ->
   RunsN (at_pos StScheme pre sch false false false empty_url) res.
 Proof.
-  intros Hin Hsp Hf HR.
+  intros Hin Hsp Hf Hb HR.
   eapply runs_step_next with (st' := StSpecialAuthoritySlashes) (buf' := []); [exact Hin | | exact HR].
   rewrite (step_unfold _ _ _ _ _ _ _ _ _ _ _ Hin). cbn zeta. cbn [hd_error tl]. unfold st_scheme.
   assert (is_scheme_cp 58 = false) as E1 by reflexivity.
   cbn [cpred cis has_ov opt_is_some andb m_url m_buf at_pos]. rewrite E1.
   replace (58 =? 58) with true by reflexivity.
   unfold is_special. cbn [su_scheme set_scheme empty_url].
-  rewrite Hf, Hsp. cbn [andb]. reflexivity.
+  rewrite Hf, Hsp, Hb. cbn [andb]. reflexivity.
 Qed.
 
 End SpRuns.
